@@ -41,6 +41,52 @@ Lemma skel_HTPcreate : HTPcreate_skel =
   ["HTIfind_dd(file_rec,tag,ref,&dd_ptr,1)"; "HTIfind_dd(file_rec,(uint16)1,(uint16)0,&dd_ptr,1)";
    "HTInew_dd_block(file_rec)"; "else"; "HTIupdate_dd(file_rec,dd_ptr)"].               (* has_dd; create_dd *)
 Proof. reflexivity. Qed.
+Lemma skel_HPfreediskblock : HPfreediskblock_skel = [].                   (* releases nothing: op_del frees no space *)
+Proof. reflexivity. Qed.
+Lemma skel_Hdeldd : Hdeldd_skel = ["HTPselect(file_rec,tag,ref)"; "HTPdelete(ddid)"].                (* op_del *)
+Proof. reflexivity. Qed.
+Lemma skel_HTPdelete : HTPdelete_skel =
+  ["HPfreediskblock(file_rec,dd_ptr->offset,dd_ptr->length)"; "HTIunregister_tag_ref(file_rec,dd_ptr)";
+   "HTIupdate_dd(file_rec,dd_ptr)"].                                                                 (* op_del *)
+Proof. reflexivity. Qed.
+Lemma skel_Hnewref : Hnewref_skel =
+  ["if(file_rec->maxref<((uint16)65535))"; "ret_value=++(file_rec->maxref);"; "else";
+   "for(i_ref=1;i_ref<=(uint32)((uint16)65535);i_ref++)"; "HTIfind_dd(file_rec,(uint16)0,ref,&dd_ptr,1)";
+   "ret_value=ref;"; "break;"].                                                          (* newref, first_free *)
+Proof. reflexivity. Qed.
+(* every forward walk of HTIfind_dd goes over ALL DD blocks: outer loop over the block list, inner loop over the
+   block, index reset to 0 before the next block (find_null, has_dd, ref_used, find_dd walk all blocks) *)
+Lemma skel_HTIfind_dd : HTIfind_dd_skel =
+  ["else"; "block=file_rec->ddhead;"; "idx=0;"; "else"; "idx=((*pdd)-&block->ddlist[0])+1;";
+   "for(;block;block=block->next)"; "for(;idx<block->ndds;idx++,list++)"; "idx=0;";
+   "else"; "block=file_rec->ddhead;"; "else"; "block=file_rec->ddnull;"; "if(file_rec->ddnull_idx<0)"; "idx=0;";
+   "else"; "idx=file_rec->ddnull_idx+1;";
+   "for(;block;block=block->next)"; "for(;idx<block->ndds;idx++,list++)"; "idx=idx;"; "idx=0;";
+   "else"; "for(;block;block=block->next)"; "for(;idx<block->ndds;idx++,list++)"; "idx=0;";
+   "else"; "for(;block;block=block->next)"; "for(;idx<block->ndds;idx++,list++)"; "idx=0;";
+   "else"; "for(;block;block=block->next)"; "for(;idx<block->ndds;idx++,list++)"; "idx=0;";
+   "else"; "for(;block;block=block->next)"; "for(;idx<block->ndds;idx++,list++)"; "idx=0;";
+   "else"; "block=file_rec->ddlast;"; "idx=block->ndds-1;"; "else"; "idx=((*pdd)-&block->ddlist[0])-1;";
+   "for(;block;)"; "for(;idx>=0;idx--)"; "if(list[idx].tag==1&&look_tag!=1)";
+   "if(((look_tag==0||list[idx].tag==look_tag)||(special_tag!=1&&list[idx].tag==special_tag))&&(look_ref==0||list[idx].ref==look_ref))";
+   "if(block!=((void*)0))"; "idx=block->ndds-1;"].
+Proof. reflexivity. Qed.
+(* ALL places of hfile.c / hfiledd.c that change f_end_off: each one is modelled and none lowers it
+   (load; HPgetdiskblock += size >= 0; Hwrite / HTIupdate_dd / HTInew_dd_block only under 'greater than' or at the
+   end of a block just allocated) -- the basis of `mono` *)
+Lemma census_f_end_off : f_end_off_writers =
+  ["Hwrite: file_rec->f_end_off=file_rec->f_cur_off";
+   "HPgetdiskblock: file_rec->f_end_off+=block_size";
+   "HTPstart: file_rec->f_end_off=end_off";
+   "HTPinit: file_rec->f_end_off=block->myoffset+(NDDS_SZ+OFFSET_SZ)+(block->ndds*DD_SZ)";
+   "HTInew_dd_block: file_rec->f_end_off=block->myoffset+(NDDS_SZ+OFFSET_SZ)+(block->ndds*DD_SZ)";
+   "HTIupdate_dd: file_rec->f_end_off=dd_ptr->offset+dd_ptr->length"].
+Proof. reflexivity. Qed.
+Lemma census_maxref : maxref_writers =
+  ["Hopen: file_rec->maxref=0"; "Hstartaccess: file_rec->maxref=new_ref"; "HTPstart: file_rec->maxref=0";
+   "HTPstart: file_rec->maxref=curr_dd_ptr->ref"; "HTPinit: file_rec->maxref=0"; "HTPcreate: file_rec->maxref=ref";
+   "Hnewref: ++(file_rec->maxref)"].
+Proof. reflexivity. Qed.
 Local Close Scope string_scope.
 
 Lemma consts_format : MAGICLEN = 4 /\ NDDS_SZ = 2 /\ OFFSET_SZ = 4 /\ DD_SZ = 12 /\ hdr_sz = 6 /\
@@ -119,6 +165,10 @@ Proof.
       destruct tl; simpl; auto.
 Qed.
 
+Lemma mono_set_maxref e fr fr' w (c : bool) r :
+  mono e fr fr' w -> mono e fr (if c then set_maxref fr' r else fr') w.
+Proof. intros (A & B & C & D). destruct c; unfold mono, hd_ndds; simpl; repeat split; auto. Qed.
+
 Lemma create_dd_mono fr tag ref e :
   f_cache fr = true -> 0 <= hd_ndds fr -> e <= f_end fr ->
   forall slot fr' w, create_dd fr tag ref = (slot, fr', w) -> mono e fr fr' w.
@@ -126,13 +176,14 @@ Proof.
   intros Hc Hn He slot fr' w. unfold create_dd.
   destruct (find_null (f_blocks fr)) as [s|].
   - destruct (update_dd fr (fst s) (snd s) _) as [fr2 w2] eqn:U. intros H; inversion H; subst; clear H.
-    destruct (update_dd_mono _ _ _ _ e Hc He _ _ U) as [-> M]. exact M.
+    destruct (update_dd_mono _ _ _ _ e Hc He _ _ U) as [-> M]. apply mono_set_maxref. exact M.
   - destruct (new_dd_block fr) as [fr1 w1] eqn:N.
     pose proof (new_dd_block_mono fr e Hc Hn He _ _ N) as M1.
     destruct (update_dd fr1 _ _ _) as [fr2 w2] eqn:U. intros H; inversion H; subst; clear H.
     destruct M1 as (A & B & C & D).
     destruct (update_dd_mono fr1 _ _ _ e (eq_trans A Hc) ltac:(lia) _ _ U) as [-> M2].
-    apply (mono_trans e fr fr1 fr' w1 []); auto. repeat split; auto.
+    apply mono_set_maxref.
+    apply (mono_trans e fr fr1 fr2 w1 []); auto. repeat split; auto.
 Qed.
 
 Lemma mono_set_end e fr fr' w x :
@@ -221,14 +272,56 @@ Proof.
     destruct M5 as (A5 & B5 & C5 & D5). repeat split; auto. simpl. constructor; [simpl; lia | exact C5].
 Qed.
 
-Lemma op_ok_len o : op_ok o = true -> match o with OpPut _ _ l _ => 0 <= l | OpApp _ _ _ => True end.
+Lemma op_putn_mono fr tag len data e :
+  f_cache fr = true -> 0 <= hd_ndds fr -> e <= f_end fr -> 0 <= len ->
+  forall fr' w, op_putn fr tag len data = (fr', w) -> mono e fr fr' w.
 Proof.
-  destruct o; simpl; auto. intros H. repeat (apply andb_prop in H; destruct H as [H ?]).
-  match goal with X : (0 <=? len) = true |- _ => apply Z.leb_le in X; exact X end.
+  intros Hc Hn He Hl fr' w. unfold op_putn.
+  destruct (newref fr) as [ref fr1] eqn:N.
+  assert (M1 : mono e fr fr1 []).
+  { unfold newref in N. remember (first_free fr (Z.to_nat MAX_REF) 1) as ff.
+    destruct (f_maxref fr <? MAX_REF); inversion N; subst ref fr1; unfold mono, hd_ndds;
+      cbn [f_cache f_end f_blocks set_maxref]; repeat split; auto; lia. }
+  destruct M1 as (A & B & C & D).
+  destruct ((0 <? ref) && (ref <? 65536)).
+  - intros H. pose proof (op_put_mono fr1 tag ref len data e ltac:(congruence) ltac:(congruence) ltac:(lia) Hl _ _ H) as M2.
+    apply (mono_trans e fr fr1 fr' [] w); auto. repeat split; auto.
+  - intros H; inversion H; subst. repeat split; auto.
 Qed.
 
-Lemma run_ops_mono ops : forall fr e,
-  f_cache fr = true -> 0 <= hd_ndds fr -> e <= f_end fr -> forallb op_ok ops = true ->
+Lemma op_del_mono fr tag ref e :
+  f_cache fr = true -> e <= f_end fr ->
+  forall fr' w, op_del fr tag ref = (fr', w) -> mono e fr fr' w.
+Proof.
+  intros Hc He fr' w. unfold op_del.
+  destruct (find_dd (f_blocks fr) tag ref) as [[bi i]|]; [|intros H; inversion H; subst; apply mono_refl].
+  destruct (nth_error (f_blocks fr) bi) as [mb|]; [|intros H; inversion H; subst; apply mono_refl].
+  destruct (nth_error (b_dds (m_blk mb)) i) as [d|]; [|intros H; inversion H; subst; apply mono_refl].
+  intros U. destruct (update_dd_mono _ _ _ _ e Hc He _ _ U) as [-> M]. exact M.
+Qed.
+
+Lemma op_ok1_len o : op_ok1 o = true ->
+  match o with OpPut _ _ l _ => 0 <= l | OpPutNew _ l _ => 0 <= l | _ => True end.
+Proof.
+  destruct o; simpl; auto; intros H; repeat (apply andb_prop in H; destruct H as [H ?]);
+    match goal with X : (0 <=? ?l) = true |- 0 <= ?l => apply Z.leb_le in X; exact X end.
+Qed.
+
+Lemma op_ok_ok1 o : op_ok o = true -> op_ok1 o = true.
+Proof. destruct o; simpl; auto. Qed.
+
+Lemma op_ok_len o : op_ok o = true ->
+  match o with OpPut _ _ l _ => 0 <= l | OpPutNew _ l _ => 0 <= l | _ => True end.
+Proof. intros H. apply op_ok1_len. apply op_ok_ok1. exact H. Qed.
+
+Lemma forallb_ok_ok1 ops : forallb op_ok ops = true -> forallb op_ok1 ops = true.
+Proof.
+  induction ops; simpl; auto. intros H. apply andb_prop in H. destruct H as [A B].
+  rewrite (op_ok_ok1 _ A), (IHops B). reflexivity.
+Qed.
+
+Lemma run_ops_mono1 ops : forall fr e,
+  f_cache fr = true -> 0 <= hd_ndds fr -> e <= f_end fr -> forallb op_ok1 ops = true ->
   forall fr' w, run_ops fr ops = (fr', w) -> mono e fr fr' w.
 Proof.
   induction ops as [|o r IH]; intros fr e Hc Hn He Hok fr' w; simpl.
@@ -236,13 +329,37 @@ Proof.
   - simpl in Hok. apply andb_prop in Hok. destruct Hok as [Ho Hr].
     destruct (run_op fr o) as [fr1 w1] eqn:R1.
     assert (M1 : mono e fr fr1 w1).
-    { pose proof (op_ok_len o Ho) as L. destruct o; simpl in R1.
+    { pose proof (op_ok1_len o Ho) as L. destruct o; simpl in R1.
       - eapply op_put_mono; eauto.
-      - eapply op_app_mono; eauto. }
+      - eapply op_app_mono; eauto.
+      - eapply op_putn_mono; eauto.
+      - eapply op_del_mono; eauto. }
     destruct (run_ops fr1 r) as [fr2 w2] eqn:R2.
     destruct M1 as (A & B & C & D).
     pose proof (IH fr1 e ltac:(congruence) ltac:(congruence) ltac:(lia) Hr _ _ R2) as M2.
     intros H; inversion H; subst. apply (mono_trans e fr fr1 fr'); auto. repeat split; auto.
+Qed.
+
+Lemma run_ops_mono ops : forall fr e,
+  f_cache fr = true -> 0 <= hd_ndds fr -> e <= f_end fr -> forallb op_ok ops = true ->
+  forall fr' w, run_ops fr ops = (fr', w) -> mono e fr fr' w.
+Proof. intros. eapply run_ops_mono1; eauto. apply forallb_ok_ok1. assumption. Qed.
+
+(** Hnewref never hands out a reference number that a descriptor of ANY block uses *)
+Lemma first_free_spec fr n : forall r, first_free fr n r = 0 \/ ref_used fr (first_free fr n r) = false.
+Proof.
+  induction n; intros r; simpl; [left; reflexivity|].
+  destruct (ref_used fr r) eqn:U; [apply IHn|right; exact U].
+Qed.
+
+Lemma newref_fresh_lemma fr :
+  (forall d, In d (all_mem_dds fr) -> d_ref d <= f_maxref fr) ->
+  fst (newref fr) = 0 \/ ref_used fr (fst (newref fr)) = false.
+Proof.
+  intros H. unfold newref. destruct (f_maxref fr <? MAX_REF); cbn [fst]; [|apply first_free_spec].
+  right. unfold ref_used. destruct (existsb _ (all_mem_dds fr)) eqn:E; [|reflexivity].
+  apply existsb_exists in E. destruct E as (d & Hin & Hd). apply andb_prop in Hd. destruct Hd as [_ Hd].
+  apply Z.eqb_eq in Hd. specialize (H d Hin). lia.
 Qed.
 
 (** the file record HTPstart builds from a parsable image *)
@@ -286,14 +403,14 @@ Qed.
     has an offset at or above the old end of file (old_end of the image HTPstart read) *)
 Lemma append_only_above_old_end_lemma :
   forall img bl fr ops fr1 pre,
-    parse_file img = Some bl -> load img true = Some fr -> forallb op_ok ops = true ->
+    parse_file img = Some bl -> load img true = Some fr -> forallb op_ok1 ops = true ->
     run_ops fr ops = (fr1, pre) ->
     log_above (old_end bl) pre = true /\ old_end bl <= f_end fr1.
 Proof.
   intros img bl fr ops fr1 pre P L Hok R.
   destruct (load_props img fr L) as (bl' & P' & Hc & He & Hn).
   rewrite P in P'. inversion P'; subst bl'.
-  pose proof (run_ops_mono ops fr (old_end bl) Hc Hn ltac:(lia) Hok _ _ R) as (A & B & C & D).
+  pose proof (run_ops_mono1 ops fr (old_end bl) Hc Hn ltac:(lia) Hok _ _ R) as (A & B & C & D).
   split; [|lia].
   unfold log_above. apply forallb_forall. intros x Hx.
   rewrite Forall_forall in C. apply Z.leb_le. auto.
